@@ -28,7 +28,7 @@ try:
         d1 = run(["timeout", "600", "/venv/bin/python", demo], env=env, cwd=cand)
         res["demo_patched_exit"] = d1.returncode
         res["demo_patched_tail"] = (d1.stdout + d1.stderr).strip()[-600:]
-        res["patch_vs_head"] = run(["git", "-C", wt, "diff"]).stdout
+        res["patch_vs_head"] = run(["git", "-C", wt, "diff", "HEAD"]).stdout
     ok = res.get("applies") and res["demo_clean_exit"] == 0 and res.get("demo_patched_exit", 0) != 0 and "306 passed" in res.get("suite_tail", "")
     res["confirmed"] = bool(ok)
 finally:
